@@ -11,9 +11,16 @@
 (*                  open, a process kill drops T.  Nothing about the python code is assumed here;   *)
 (*                  recorded statement logs of the real code are validated against this layer       *)
 (*                  (CrashDbTrace.tla) and the properties are evaluated in every state.             *)
+(* Layer 1b        : what the CALLER may rely on (the acknowledgement rule of the property): an insert  *)
+(*                  call that returns outside every "with database:" block acknowledges its record;  *)
+(*                  inside a block the record is only HELD and is acknowledged when the outermost    *)
+(*                  block is left normally; a block left by IgnoreCommits / an exception acknowledges *)
+(*                  nothing [DbEnter, DbLeave, DbReturn].  The reload of a restarted process          *)
+(*                  [DbReload] rebuilds the pseudonym from the rows the connection sees.              *)
 (* Layer 2 [P..]   : the program: one action per statement the code issues, in the order the code    *)
 (*                  issues them (open = read version, [upgrade], schema script; insert = BEGIN,     *)
-(*                  INSERT, COMMIT, return), a crash possible between any two of them.              *)
+(*                  INSERT, COMMIT, return), a crash possible between any two of them; the commit    *)
+(*                  gate of Database (_pending_commits: __enter__ / commit / __exit__) [pend].        *)
 EXTENDS Naturals, Sequences, FiniteSets, TLC
 
 CONSTANTS MaxRecs,             \* the workload has 1..MaxRecs records (shape chosen in Init)
@@ -22,9 +29,15 @@ CONSTANTS MaxRecs,             \* the workload has 1..MaxRecs records (shape cho
           CommitBeforeReturn,  \* TRUE: insert_* commits before it returns.  FALSE: negative control
           TolerantVersionRead, \* TRUE: a missing 'database_version' row reads as version 0 (repaired code).
                                \* FALSE: pinned code - next() on the empty result raises StopIteration
-          AtomicUpgrade,       \* TRUE: AttestationsDB runs upgrade + schema script in one transaction (repaired).
+          AtomicUpgrade,       \* TRUE: check_database runs upgrade + schema script in one transaction (repaired).
                                \* FALSE: pinned code - every statement of the scripts is its own transaction
-          Legacy               \* TRUE: the attestation database starts as a version-1 file holding record 1
+          Legacy,              \* TRUE: the attestation database starts as a version-1 file holding record 1
+          MaxBatches,          \* bound on the number of "with database:" blocks the workload opens (0: none)
+          GateResetOnError,    \* TRUE: __exit__ re-enables commits whichever way the block is left (the code).
+                               \* FALSE: negative control - an exception leaves the commits deferred
+          ReloadWait           \* 0: the reload fills the tree directly from the rows it reads (the code).
+                               \* k > 0: negative control - rows are chained in the (arbitrary) order they are
+                               \* read, a row whose parent was not read yet waits in a room for k - 1 rows
 
 DBs   == {"id", "att"}
 Kinds == {"token", "metadata", "attestation", "blob"}
@@ -40,9 +53,16 @@ VARIABLES recs,        \* workload: sequence of [kind, ref]; ref = record this o
           openFailed,  \* some open() raised
           runs,        \* processes started so far
           calls,       \* insert calls started so far
-          pc           \* program counter of the running process
-dbvars == <<D, T, inTxn, up, acked, executed, openFailed, runs>>
-vars   == <<recs, legacy, dbvars, calls, pc>>
+          pc,          \* program counter of the running process
+          depth,       \* DBs -> number of "with database:" blocks the caller is in
+          held,        \* records whose insert call returned inside a block that has not been left yet
+          rebuilt,     \* what the reload produced, in the state right after the reload only
+          pend,        \* DBs -> Database._pending_commits (0: commit() commits; > 0: commit() is deferred)
+          batches      \* blocks opened so far
+ackvars == <<depth, held>>
+dbvars  == <<D, T, inTxn, up, acked, executed, openFailed, runs, ackvars>>
+vars    == <<recs, legacy, dbvars, calls, pc, pend, batches>>
+allvars == <<vars, rebuilt>>
 
 (* image of one database file. rows: record ids; data: the data tables exist; opt: the option table  *)
 (* exists; ver: 0 = no database_version row, 1 = an older version, 2 = latest; cols: 1 = old layout   *)
@@ -60,25 +80,25 @@ Apply(d, img) == /\ T' = [T EXCEPT ![d] = img]
                  /\ D' = IF inTxn[d] THEN D ELSE [D EXCEPT ![d] = img]
 
 DbStart == /\ ~up /\ up' = TRUE /\ runs' = runs + 1
-           /\ UNCHANGED <<D, T, inTxn, acked, executed, openFailed>>
+           /\ UNCHANGED <<D, T, inTxn, acked, executed, openFailed, ackvars>>
 
 DbBegin(d) == /\ up /\ ~inTxn[d]
               /\ inTxn' = [inTxn EXCEPT ![d] = TRUE]
-              /\ UNCHANGED <<D, T, up, acked, executed, openFailed, runs>>
+              /\ UNCHANGED <<D, T, up, acked, executed, openFailed, runs, ackvars>>
 
 DbCommit(d) == /\ up /\ inTxn[d]
                /\ D' = [D EXCEPT ![d] = T[d]]
                /\ inTxn' = [inTxn EXCEPT ![d] = FALSE]
-               /\ UNCHANGED <<T, up, acked, executed, openFailed, runs>>
+               /\ UNCHANGED <<T, up, acked, executed, openFailed, runs, ackvars>>
 
 DbExecute(r) == LET d == DbOf(r) IN
                 /\ up /\ T[d].data
                 /\ Apply(d, [T[d] EXCEPT !.rows = @ \cup {r}])
                 /\ executed' = executed \cup {r}
-                /\ UNCHANGED <<inTxn, up, acked, openFailed, runs>>
+                /\ UNCHANGED <<inTxn, up, acked, openFailed, runs, ackvars>>
 
 Schema(d, img) == /\ up /\ Apply(d, img)
-                  /\ UNCHANGED <<inTxn, up, acked, executed, openFailed, runs>>
+                  /\ UNCHANGED <<inTxn, up, acked, executed, openFailed, runs, ackvars>>
 
 DbCreateData(d) == Schema(d, [T[d] EXCEPT !.data = TRUE])
 DbCreateOpt(d)  == Schema(d, [T[d] EXCEPT !.opt = TRUE])
@@ -92,30 +112,78 @@ DbUpdate(d)     == T[d].data /\ T[d].cols = 2 /\ Schema(d, T[d])
 DbSetVer(d)   == T[d].opt /\ Schema(d, [T[d] EXCEPT !.ver = 2])
 DbRollback(d) == /\ up /\ inTxn[d]
                  /\ T' = [T EXCEPT ![d] = D[d]] /\ inTxn' = [inTxn EXCEPT ![d] = FALSE]
-                 /\ UNCHANGED <<D, up, acked, executed, openFailed, runs>>
+                 /\ UNCHANGED <<D, up, acked, executed, openFailed, runs, ackvars>>
 
+(* ----- layer 1b: acknowledgement ----- *)
+(* an insert call returns: outside every block of its database the record is acknowledged now *)
 DbReturn(r) == /\ up /\ r \in executed
-               /\ acked' = acked \cup {r}
-               /\ UNCHANGED <<D, T, inTxn, up, executed, openFailed, runs>>
+               /\ IF depth[DbOf(r)] = 0 THEN acked' = acked \cup {r} /\ UNCHANGED held
+                                        ELSE held' = held \cup {r} /\ UNCHANGED acked
+               /\ UNCHANGED <<D, T, inTxn, up, executed, openFailed, runs, depth>>
+
+Hows == {"ok", "ignore", "error"}
+DbEnter(d) == /\ up /\ depth' = [depth EXCEPT ![d] = @ + 1]
+              /\ UNCHANGED <<D, T, inTxn, up, acked, executed, openFailed, runs, held>>
+(* the block is left: normally ("ok"), by raise IgnoreCommits ("ignore") or by any other exception ("error") *)
+DbLeave(d, how) ==
+  LET mine == {r \in held : DbOf(r) = d} IN
+  /\ up /\ depth[d] > 0 /\ how \in Hows
+  /\ depth' = [depth EXCEPT ![d] = @ - 1]
+  /\ IF how # "ok" THEN held' = held \ mine /\ UNCHANGED acked
+     ELSE IF depth[d] = 1 THEN acked' = acked \cup mine /\ held' = held \ mine
+     ELSE UNCHANGED <<acked, held>>
+  /\ UNCHANGED <<D, T, inTxn, up, executed, openFailed, runs>>
+
+(* ----- layer 1b: the reload of a (re)started process: PseudonymManager.__init__ ----- *)
+Of(k, S) == {r \in S : recs[r].kind = k}
+Chainable(r, chained) == Ref(r) = 0 \/ Ref(r) \in chained
+RemoveAt(s, i) == [j \in 1..(Len(s) - 1) |-> IF j < i THEN s[j] ELSE s[j + 1]]
+RECURSIVE React(_, _)
+React(chained, waiting) ==       \* waiting rows whose parent got chained are chained as well
+  IF \E i \in 1..Len(waiting) : Chainable(waiting[i], chained)
+  THEN LET i == CHOOSE i \in 1..Len(waiting) : Chainable(waiting[i], chained)
+       IN React(chained \cup {waiting[i]}, RemoveAt(waiting, i))
+  ELSE <<chained, waiting>>
+RECURSIVE Feed(_, _, _)
+Feed(order, chained, waiting) ==
+  IF order = <<>> THEN chained
+  ELSE LET r == Head(order) IN
+       IF Chainable(r, chained)
+       THEN LET cw == React(chained \cup {r}, waiting) IN Feed(Tail(order), cw[1], cw[2])
+       ELSE LET w == Append(waiting, r) IN
+            Feed(Tail(order), chained, IF Len(w) > ReloadWait - 1 THEN Tail(w) ELSE w)
+Orders(S) == {o \in [1..Cardinality(S) -> S] : \A i, j \in 1..Cardinality(S) : i # j => o[i] # o[j]}
+ReloadTrees(S) == IF ReloadWait = 0 THEN {S} ELSE {Feed(o, {}, <<>>) : o \in Orders(S)}
+
+NoRebuilt == [seen |-> FALSE, tree |-> {}, creds |-> {}, atts |-> {}]
+DbReload == /\ up
+            /\ \E tr \in ReloadTrees(Of("token", T["id"].rows)) :
+                 rebuilt' = [seen |-> TRUE, tree |-> tr, creds |-> Of("metadata", T["id"].rows),
+                             atts |-> Of("attestation", T["id"].rows)]
+            /\ UNCHANGED dbvars
 
 (* SIGKILL: the connection's uncommitted work is gone, the durable image stays *)
 DbCrash == /\ up /\ up' = FALSE
            /\ T' = D /\ inTxn' = [d \in DBs |-> FALSE]
+           /\ depth' = [d \in DBs |-> 0] /\ held' = {}
            /\ UNCHANGED <<D, acked, executed, openFailed, runs>>
 
 (* open() raised: the process gives up, its connection is dropped without a commit *)
 DbOpenError == /\ up /\ up' = FALSE /\ openFailed' = TRUE
                /\ T' = D /\ inTxn' = [d \in DBs |-> FALSE]
+               /\ depth' = [d \in DBs |-> 0] /\ held' = {}
                /\ UNCHANGED <<D, acked, executed, runs>>
 
-(* Database.close(): commit, then close *)
-DbExit == /\ up /\ up' = FALSE
+(* Database.close(): commit, then close (not from inside a block) *)
+DbExit == /\ up /\ up' = FALSE /\ \A d \in DBs : depth[d] = 0
           /\ D' = T /\ inTxn' = [d \in DBs |-> FALSE]
-          /\ UNCHANGED <<T, acked, executed, openFailed, runs>>
+          /\ UNCHANGED <<T, acked, executed, openFailed, runs, ackvars>>
 
 (* --------------------------------- layer 2: the program ------------------------------------------ *)
 Down == <<"down">>
-Same == UNCHANGED <<calls, recs, legacy>>
+(* what the reload produced is looked at in the state right after the reload: every other step forgets it *)
+Same0 == UNCHANGED <<calls, recs, legacy>> /\ rebuilt' = NoRebuilt
+Same  == Same0 /\ UNCHANGED <<pend, batches>>
 
 ValidRecs(s) ==
   \A i \in 1..Len(s) :
@@ -134,12 +202,13 @@ InitDb(leg) ==
   /\ T = D
   /\ inTxn = [d \in DBs |-> FALSE]
   /\ up = FALSE /\ acked = leg /\ executed = leg /\ openFailed = FALSE /\ runs = 0
+  /\ depth = [d \in DBs |-> 0] /\ held = {} /\ rebuilt = NoRebuilt
 
 Init == /\ \E n \in 1..MaxRecs : recs \in [1..n -> [kind : Kinds, ref : 0..(MaxRecs - 1)]]
         /\ ValidRecs(recs)
         /\ Legacy => recs[1].kind = "blob"
         /\ InitDb(IF Legacy THEN {1} ELSE {})
-        /\ calls = 0 /\ pc = Down
+        /\ calls = 0 /\ pc = Down /\ pend = [d \in DBs |-> 0] /\ batches = 0
 
 PStart == /\ pc = Down /\ runs < MaxRuns /\ DbStart
           /\ pc' = <<"open", "id", "rv", FALSE>> /\ Same
@@ -156,7 +225,7 @@ PReadVersion(d) ==
      THEN DbOpenError /\ pc' = <<"failed">>
      ELSE LET old == T[d].opt /\ T[d].ver = 1 IN
           /\ UNCHANGED dbvars
-          /\ pc' = <<"open", d, IF d = "att" /\ AtomicUpgrade THEN "begin"
+          /\ pc' = <<"open", d, IF AtomicUpgrade THEN "begin"
                                ELSE IF old THEN "alter" ELSE "cdata", old>>
 
 POpenBegin(d) == /\ At(d, "begin") /\ DbBegin(d) /\ Same
@@ -175,7 +244,8 @@ PInsertVer(d)  == /\ At(d, "iv") /\ DbInsertVer(d) /\ Same
 POpenCommit(d) == At(d, "commit") /\ DbCommit(d) /\ pc' = AfterOpen(d) /\ Same
 
 (* a restarted process reads everything back (the harness' observation point) *)
-PObserve == pc = <<"observe">> /\ pc' = <<"idle">> /\ UNCHANGED dbvars /\ Same
+PObserve == /\ pc = <<"observe">> /\ pc' = <<"idle">> /\ DbReload
+            /\ UNCHANGED <<calls, recs, legacy, pend, batches>>
 
 (* the workload inserts a record after the record it points to; anything not yet acknowledged may be *)
 (* (re-)inserted after a restart; INSERT OR IGNORE makes the re-insert of a stored record a no-op     *)
@@ -183,20 +253,44 @@ Insertable(i) == /\ i \notin legacy
                  /\ Ref(i) = 0 \/ Ref(i) \in T[DbOf(i)].rows
                  /\ recs[i].kind = "blob" => i \notin T["att"].rows
 PCall(i) == /\ i \in Recs /\ pc = <<"idle">> /\ calls < MaxCalls /\ Insertable(i)
-            /\ calls' = calls + 1 /\ pc' = <<"ins", i, "begin">> /\ UNCHANGED <<dbvars, recs, legacy>>
+            /\ calls' = calls + 1 /\ pc' = <<"ins", i, IF inTxn[DbOf(i)] THEN "exec" ELSE "begin">> /\ UNCHANGED <<dbvars, recs, legacy, pend, batches>>
+            /\ rebuilt' = NoRebuilt
 
 Ins(i, s) == pc = <<"ins", i, s>>
-PBegin(i)  == /\ Ins(i, "begin") /\ Same /\ pc' = <<"ins", i, "exec">>
-              /\ IF inTxn[DbOf(i)] THEN UNCHANGED dbvars ELSE DbBegin(DbOf(i))
+(* the implicit BEGIN of the python driver - not issued when a transaction is open already (PCall) *)
+PBegin(i)  == Ins(i, "begin") /\ DbBegin(DbOf(i)) /\ Same /\ pc' = <<"ins", i, "exec">>
 PExecute(i) == /\ Ins(i, "exec") /\ DbExecute(i) /\ Same
                /\ pc' = <<"ins", i, IF CommitBeforeReturn THEN "commit" ELSE "ret">>
-PCommit(i) == Ins(i, "commit") /\ DbCommit(DbOf(i)) /\ pc' = <<"ins", i, "ret">> /\ Same
+(* Database.commit(): deferred (counted) while the gate is closed *)
+PCommit(i) == /\ Ins(i, "commit") /\ pc' = <<"ins", i, "ret">> /\ Same0 /\ UNCHANGED batches
+              /\ IF pend[DbOf(i)] = 0 THEN DbCommit(DbOf(i)) /\ UNCHANGED pend
+                 ELSE pend' = [pend EXCEPT ![DbOf(i)] = @ + 1] /\ UNCHANGED dbvars
 PReturn(i) == Ins(i, "ret") /\ DbReturn(i) /\ pc' = <<"idle">> /\ Same
 
-PExit  == pc = <<"idle">> /\ DbExit /\ pc' = Down /\ Same
-PCrash == pc # Down /\ pc # <<"failed">> /\ DbCrash /\ pc' = Down /\ Same
+(* "with database:" - __enter__ closes the commit gate; __exit__ opens it again and, when the block is  *)
+(* left normally and a commit was deferred, commits (the workload opens blocks one at a time per database)    *)
+PEnter(d) == /\ pc = <<"idle">> /\ batches < MaxBatches /\ depth[d] = 0 /\ DbEnter(d)
+             /\ pend' = [pend EXCEPT ![d] = IF @ > 1 THEN @ ELSE 1] /\ batches' = batches + 1
+             /\ UNCHANGED pc /\ Same0
+PLeaveCommit(d) == /\ pc = <<"idle">> /\ depth[d] > 0 /\ pend[d] > 1
+                   /\ pend' = [pend EXCEPT ![d] = 0] /\ pc' = <<"leaving", d>>
+                   /\ (IF inTxn[d] THEN DbCommit(d) ELSE UNCHANGED dbvars)
+                   /\ Same0 /\ UNCHANGED batches
+PLeave(d, how) == /\ \/ pc = <<"leaving", d>> /\ how = "ok"
+                     \/ pc = <<"idle">> /\ depth[d] > 0 /\ (how = "ok" => pend[d] <= 1)
+                  /\ DbLeave(d, how) /\ pc' = <<"idle">>
+                  /\ pend' = IF how = "error" /\ ~GateResetOnError THEN pend ELSE [pend EXCEPT ![d] = 0]
+                  /\ Same0 /\ UNCHANGED batches
+
+PExit  == /\ pc = <<"idle">> /\ DbExit /\ pc' = Down
+          /\ pend' = [d \in DBs |-> 0] /\ Same0 /\ UNCHANGED batches
+PCrash == /\ pc # Down /\ pc # <<"failed">> /\ DbCrash /\ pc' = Down
+          /\ pend' = [d \in DBs |-> 0] /\ Same0 /\ UNCHANGED batches
 
 Next == \/ PStart \/ PObserve \/ PExit \/ PCrash
+        \/ \E d \in DBs : PEnter(d)
+        \/ \E d \in DBs : PLeaveCommit(d)
+        \/ \E d \in DBs : \E how \in Hows : PLeave(d, how)
         \/ \E d \in DBs : PReadVersion(d)
         \/ \E d \in DBs : POpenBegin(d)
         \/ \E d \in DBs : PAlter(d)
@@ -212,7 +306,7 @@ Next == \/ PStart \/ PObserve \/ PExit \/ PCrash
         \/ \E i \in 1..MaxRecs : PCommit(i)
         \/ \E i \in 1..MaxRecs : PReturn(i)
 
-Spec == Init /\ [][Next]_vars
+Spec == Init /\ [][Next]_allvars
 
 (* ------------------------------------- properties ------------------------------------------------ *)
 Image == [rows : SUBSET Recs, data : BOOLEAN, opt : BOOLEAN, ver : 0..2, cols : 1..2]
@@ -220,7 +314,10 @@ TypeOK == /\ D \in [DBs -> Image] /\ T \in [DBs -> Image] /\ inTxn \in [DBs -> B
           /\ acked \subseteq Recs /\ executed \subseteq Recs /\ legacy \subseteq Recs
           /\ up \in BOOLEAN /\ openFailed \in BOOLEAN
           /\ \A d \in DBs : ~inTxn[d] => T[d] = D[d]
-          /\ ~up => \A d \in DBs : ~inTxn[d]
+          /\ ~up => \A d \in DBs : ~inTxn[d] /\ depth[d] = 0 /\ pend[d] = 0
+          /\ depth \in [DBs -> 0..MaxBatches] /\ pend \in [DBs -> 0..(MaxCalls + 1)]
+          /\ held \subseteq executed /\ (~up => held = {})
+          /\ \A r \in held : depth[DbOf(r)] > 0
 
 (* every record whose insert call has returned is in the durable image - in every state, hence at   *)
 (* every instant at which the process can be killed                                                  *)
@@ -232,4 +329,16 @@ ReopenOk        == ~openFailed
 (* the pseudonym rebuilt from the durable image is connected: no token without its parent, no        *)
 (* metadata without its token, no attestation without its metadata                                   *)
 PseudonymVerifies == \A r \in D["id"].rows : Ref(r) = 0 \/ Ref(r) \in D["id"].rows
+(* the pseudonym the reload path rebuilds holds every acknowledged token / credential / attestation ...  *)
+RebuiltHasAcked == rebuilt.seen =>
+                     \A r \in acked : /\ (recs[r].kind = "token"       => r \in rebuilt.tree)
+                                      /\ (recs[r].kind = "metadata"    => r \in rebuilt.creds)
+                                      /\ (recs[r].kind = "attestation" => r \in rebuilt.atts)
+(* ... nothing but stored records, and it verifies: every token chains back to the genesis inside the    *)
+(* rebuilt tree, every credential sits on a token of the tree, every attestation on a rebuilt credential *)
+RebuiltVerifies == rebuilt.seen =>
+                     /\ rebuilt.tree \cup rebuilt.creds \cup rebuilt.atts \subseteq T["id"].rows
+                     /\ \A r \in rebuilt.tree  : Ref(r) = 0 \/ Ref(r) \in rebuilt.tree
+                     /\ \A r \in rebuilt.creds : Ref(r) \in rebuilt.tree
+                     /\ \A r \in rebuilt.atts  : Ref(r) \in rebuilt.creds
 =============================================================================
